@@ -171,6 +171,21 @@ def gen(chk, tier):
         verify("key_noncanonical_x", b32(x + P), b32(y), b32(e), b32(r), b32(s))
         verify("key_negated_y_wrong_sig", b32(x), b32(P - y), b32(e), b32(r), b32(s))
         verify("key_off_curve", b32(x), b32((y + 1) % P), b32(e), b32(r), b32(s))
+    # the same for y: points with a small / word-structured y (roots of the cubic in x), presented as y + p
+    ny = 0
+    for yv in [1, 2, 3, 5, 7] + [D - 1 for D in limb_structured(rng, 20 if q else 400, maxbits=224)]:
+        if yv < 0 or yv + P >= T256:
+            continue
+        for xv in ec.xs_for_y(yv, rng)[:1]:
+            s, t = rscalar(rng), rscalar(rng)
+            pt, e, r, R = forged((xv, yv), s, t)
+            if r == 0 or R is None:
+                continue
+            verify("key_small_y_valid", b32(xv), b32(yv), b32(e), b32(r), b32(s))
+            verify("key_noncanonical_y", b32(xv), b32(yv + P), b32(e), b32(r), b32(s))
+            ny += 1
+        if ny >= (8 if q else 200):
+            break
     y0 = ec.lift_x(0)
     if y0 is not None:
         s, t = rscalar(rng), rscalar(rng)
